@@ -312,7 +312,34 @@ fn check_index(ctx: &mut Ctx, exhaustive_limit: usize, samples: usize) {
                 other => ctx.report.violation("oracle", "C20:index-validate-wrong-set", format!("Index::validate_checksum with {} damaged: {:?}", path.display(), other.map(|r| r.map_err(|e| e.to_string()))), json!({"kind":"damage","path":path.to_string_lossy(),"original":hex(&raw),"damaged":hex(&d.bytes),"damage":d.desc,"damage_kind":"index-validate","body_only":true,"in_payload":false})),
             }
             ctx.report.count("index-validate-set");
+            // the same through a freshly re-opened Index (its managed-file list comes from the
+            // persisted `.managed.json`, not from the writer's memory): every committed file must
+            // still be walked
+            vdir.overwrite_raw(path, &d.bytes);
+            let res = catch_unwind(AssertUnwindSafe(|| Index::open(vdir.clone()).and_then(|reopened| reopened.validate_checksum())));
+            vdir.overwrite_raw(path, &raw);
+            match res {
+                Ok(Ok(set)) if set == expected => {}
+                other => ctx.report.violation("oracle", "C20:reopened-index-validate-wrong-set", format!("Index::open + validate_checksum with {} damaged: {:?} (expected exactly that file)", path.display(), other.map(|r| r.map_err(|e| e.to_string()))), json!({"kind":"damage","path":path.to_string_lossy(),"original":hex(&raw),"damaged":hex(&d.bytes),"damage":d.desc,"damage_kind":"reopened-index-validate","body_only":true,"in_payload":false})),
+            }
+            ctx.report.count("reopened-index-validate-set");
         }
+    }
+    // the persisted managed list must name every committed segment file (Index::validate_checksum
+    // only walks files that are both referenced by meta.json and managed)
+    {
+        let reopened = Index::open(vdir.clone());
+        match reopened {
+            Ok(r) => {
+                let managed = r.directory().list_managed_files();
+                let missing: Vec<String> = files.iter().filter(|p| !managed.contains(*p)).map(|p| p.to_string_lossy().to_string()).collect();
+                if !missing.is_empty() {
+                    ctx.report.violation("oracle", "C20:committed-file-not-in-persisted-managed-list", format!("after re-opening, committed segment files are missing from .managed.json and would be skipped by validate_checksum: {:?}", missing), json!({"kind":"reopen-managed","missing":missing}));
+                }
+            }
+            Err(e) => ctx.report.violation("oracle", "C20:reopen-failed", format!("Index::open on an intact index failed: {e}"), json!({"kind":"reopen"})),
+        }
+        ctx.report.case("reopen|managed-list", true);
     }
     if ctx.report.samples.len() < 3 {
         ctx.report.sample(json!({"index_files": files.iter().map(|p| p.to_string_lossy().to_string()).collect::<Vec<_>>(), "example": "each file: intact + bit flips + byte substitutions + truncations + extensions + footer damage + bad versions"}));
